@@ -98,6 +98,9 @@ func (r *c02Run) handler(ctx context.Context, req interface{}) (interface{}, err
 	case "late", "cancel", "clientdeadline":
 		waitCtx()
 		waitGate()
+	case "park": // parks on the harness gate without looking at ctx
+		r.once[1].Do(func() { close(r.blocked) })
+		waitGate()
 	case "latepanic":
 		waitCtx()
 		waitGate()
@@ -449,6 +452,94 @@ func (g *c02Group) scenario(sc c02Script) bool {
 	return ok
 }
 
+// behindParked: ONE interceptor instance (as a real server has) serves a call
+// whose handler is parked on the harness gate — either after that call has
+// already been answered DeadlineExceeded (firstKind "clientdeadline": the
+// caller's own deadline) or while it is simply still running ("park") — and then a
+// second, non-blocking call. The second call must be entered and answered with
+// its handler's result while the first handler is still parked: calls on one
+// instance do not wait for each other.
+func (g *c02Group) behindParked(firstKind string) bool {
+	m := g.m
+	if atomic.LoadInt64(&c02Hangs) > 0 {
+		return false
+	}
+	newRun := func(sc c02Script) *c02Run {
+		return &c02Run{id: atomic.AddInt64(g.nextID, 1), sc: sc, gate: make(chan struct{}), entered: make(chan struct{}), blocked: make(chan struct{}), done: make(chan struct{})}
+	}
+	first := newRun(c02Script{Kind: firstKind})
+	defer first.release()
+	ctx, cancel := context.Background(), context.CancelFunc(func() {})
+	if firstKind == "clientdeadline" {
+		ctx, cancel = context.WithTimeout(ctx, g.short)
+	}
+	defer cancel()
+	ch1 := g.call(first, ctx, g.chLong)
+	if firstKind == "clientdeadline" {
+		o, got := c02Wait(ch1, c02Patience)
+		if !got {
+			m.Inconclusive("rpc behind-parked: first call unanswered")
+			return false
+		}
+		g.note(o)
+		if g.tolerated(first, o) {
+			return false
+		}
+		if is, why := c02IsStatus(o, codes.DeadlineExceeded); !is {
+			g.violate("clientdeadline:not-DeadlineExceeded", first, "%s | caller saw %s", why, o)
+			return false
+		}
+	}
+	if !c02WaitCh(first.blocked) {
+		m.Inconclusive("rpc behind-parked: first handler did not park")
+		return false
+	}
+	second := newRun(c02Script{Kind: "fast"})
+	ch2 := g.call(second, context.Background(), g.chLong)
+	o, got := c02Wait(ch2, c02Patience)
+	if !got {
+		atomic.AddInt64(&c02Hangs, 1)
+		if atomic.LoadInt32(&second.entries) == 0 {
+			var dump strings.Builder
+			for _, gr := range vk.GoroutinesIn("serverinterceptors.") {
+				if dump.Len() < 6000 {
+					dump.WriteString(gr + "\n\n")
+				}
+			}
+			g.violate("second-call-blocked-behind-parked-"+firstKind, second, "the same interceptor instance holds a call whose handler is parked on the harness gate (%s); a second non-blocking call issued %v ago has not even entered its handler. Goroutines:\n%s", firstKind, c02Patience, dump.String())
+		} else {
+			m.Inconclusive("rpc behind-parked: second call entered but unanswered after %v", c02Patience)
+		}
+		first.release()
+		c02Wait(ch2, c02Watchdog)
+		return false
+	}
+	g.note(o)
+	if g.tolerated(second, o) {
+		return false
+	}
+	if is, why := g.isHandlerResult(second, o); !is {
+		g.violate("second-call-behind-parked-"+firstKind+":not-handler-result", second, "first call's handler still parked: %s | caller saw %s", why, o)
+		return false
+	}
+	first.release()
+	if firstKind == "park" {
+		o1, got := c02Wait(ch1, c02Watchdog)
+		if !got {
+			m.Inconclusive("rpc behind-parked: first call unanswered after release")
+			return false
+		}
+		if is, why := g.isHandlerResult(first, o1); !is {
+			g.violate("park:not-handler-result", first, "%s | caller saw %s", why, o1)
+			return false
+		}
+	}
+	c02WaitCh(first.done)
+	m.Count("second_call_served_behind_parked_"+firstKind, 1)
+	m.Case("rpc|behind-parked|"+firstKind, true)
+	return true
+}
+
 var c02Sampled sync.Map
 
 // c02Hangs: gated calls still unanswered after c02Patience; once non-zero no
@@ -515,6 +606,15 @@ func TestVerifC02RPCChain(t *testing.T) {
 					}
 				}()
 			}
+			// one shared interceptor instance, overlapping calls
+			bw.Add(1)
+			g7 := mk(7)
+			go func() {
+				defer bw.Done()
+				if g7.behindParked("clientdeadline") {
+					g7.behindParked("park")
+				}
+			}()
 			// groups 1..: failing outcomes, 4 per method, the methods in parallel
 			for k := 1; k <= 6; k++ {
 				bw.Add(1)
